@@ -569,7 +569,15 @@ def gen_paced(r, n):
             dirs.update(newd)
             if ops:
                 bursts.append(ops)
-        elif k < 0.65:      # file storm
+        elif k < 0.53:      # a directory created and immediately renamed
+            base = r.choice(sorted(dirs))
+            tgt = r.choice(sorted(dirs))
+            if base.count("/") < 5 and tgt.count("/") < 5:
+                a, b = f"{base}/c{used}", f"{tgt}/cr{used}"
+                bursts.append([("mkdir", a), ("rename", a, b)])
+                dirs.add(b)
+                vacated.append(a)
+        elif k < 0.7:       # file storm
             ops = []
             fl = sorted(files)
             for i in range(r.randint(3, 8)):
